@@ -168,3 +168,18 @@ package syncx
 //@   prop C18
 //@   requires c != nil
 //@   ensures [never-blocks-at-most-one-waiter-woken] calls("send") <= 1 && calls("recv") == 0
+
+// NewPool: the limit is the caller's (a non-positive one is refused outright), the condition variable waits on the
+// pool's own lock, create / destroy are the caller's, nothing is live yet; the options run on that pool.
+//@ func NewPool
+//@   prop C18
+//@   opaque NewCond
+//@   loop 1 invariant -1 <= rangeindex && rangeindex < len(opts) && (rangeindex == -1 ==> pool.limit == n && pool.created == 0 && pool.head == nil && pool.lock != nil && pool.cond == ret(sync.NewCond) && pool.create == create && pool.destroy == destroy)
+//@   ensures [limit-and-callbacks-are-the-callers] len(opts) == 0 ==> result != nil && result.limit == n && result.created == 0 && result.head == nil && result.lock != nil && result.cond == ret(sync.NewCond) && result.create == create && result.destroy == destroy
+//@   ensures [condition-waits-on-the-pools-lock] calls(sync.NewCond) == 1 && typeis(arg(sync.NewCond, 0), ptr(sync.Mutex))
+//@   ensures [positive-size-or-nothing] n > 0
+//@   panic-ensures [non-positive-size-refused] n <= 0 && calls(NewCond) == 0
+//@ func WithMaxAge$1
+//@   prop C18
+//@   requires pool != nil
+//@   ensures [max-age-set] pool.maxAge == duration
